@@ -96,6 +96,21 @@ def higher_specs(tier, seed):
             els.append(R.tok(s))
         mix = [None, "5000", "25%", "5e4", "10.0%"][k % 5]
         yield ("mol", {"elements": els, "mixture": mix}, (d1, d2))
+    # two objects joined by a connector written WITHOUT descriptors (or directly), the first object's right terminal
+    # carrying a weight or a transition list (the inserted connector descriptor never carries one)
+    for conn in ("", "S", "CO", "C(C)C"):
+        for rt in ("[<|2.5|]", "[<|1 2|]", "[<|0|]", "[<2|3|]"):
+            for lt2 in ("[>]", "[>|4|]"):
+                if rt.startswith("[<2") :
+                    lt2 = lt2.replace("[>", "[>2")
+                k += 1
+                d1, d2 = dists[k % len(dists)], dists[(k + 2) % len(dists)]
+                idp = "2" if rt.startswith("[<2") else ""
+                els = [R.tok("N"), R.sto("[>]", [f"[<]CC[>{idp}]"] if idp else ["[<]CC[>]"], [], rt, d1[1])]
+                if conn:
+                    els.append(R.tok(conn))
+                els += [R.sto(lt2, [f"[<{idp}]CO[>]"], [], "[<]", d2[1]), R.tok("F")]
+                yield ("mol", {"elements": els, "mixture": [None, "5e3"][k % 2]}, (d1, d2))
     # several weights whose text ends in a dot (the two characters '.|' also open a mixture specifier) in ONE molecule,
     # on repeat units, end groups, terminals and prefix tokens, with every kind of mixture tail
     dotted = [["[<|2.|]CC[>|3.|]"], ["[<|2.|]CC[>|3.|]", "[<|4.|]CO[>|1.|]"], ["[<|2.|]CC[>]", "[<]CO[>|5.|]", "[<|1.e1|]CS[>|7.|]"]]
